@@ -328,7 +328,17 @@ func C19(c *core.Ctx) error {
 			return
 		}
 		v2path := filepath.Join(dir, "v2.yml")
+		// where the v3 file goes is the user's choice and must not touch any value: beside the v2 file, in a
+		// directory below it, or in a sibling directory (cycling with the case number)
 		v3path := filepath.Join(dir, "v3.yml")
+		switch i % 3 {
+		case 1:
+			v3path = filepath.Join(dir, "build", "cfg", "v3.yml")
+		case 2:
+			v3path = filepath.Join(dir+"-out", "v3.yml")
+			defer os.RemoveAll(dir + "-out")
+		}
+		os.MkdirAll(filepath.Dir(v3path), 0o755)
 		os.WriteFile(v2path, v2b, 0o644)
 		// histories: every other case starts with an output file left by an earlier, larger migration
 		// (the new output must replace it completely); the rest start without one
@@ -341,7 +351,7 @@ func C19(c *core.Ctx) error {
 		c.Ev.Add("evaluations", 1)
 		c.Ev.Distinct("states", cs.id())
 		id := cs.id()
-		replay := map[string]any{"case": id, "v2_yaml": string(v2b), "cmd": "mockery migrate --config v2.yml --outfile v3.yml"}
+		replay := map[string]any{"case": id, "v2_yaml": string(v2b), "cmd": "mockery migrate --config v2.yml --outfile " + []string{"v3.yml", "build/cfg/v3.yml", "../<case>-out/v3.yml"}[i%3]}
 		if core.ResourceFailure(r) {
 			c.Skip("%s: migrate timed out or was killed", id)
 			return
